@@ -89,7 +89,9 @@ Classify(init, H) ==
 (* mutations, must be explainable.                                          *)
 (***************************************************************************)
 IsMutation(o) == o.op \in {"put", "create", "upd", "del"}
-Effective(H) == {[o EXCEPT !.op = IF o.op = "del" THEN "del" ELSE "put"] : o \in {m \in H : IsMutation(m) /\ m.res \in {"ok", "fail"}}}
+\* (an acknowledged create / update keeps its precondition: it was applied to an absent /
+\* a present account; refused ones had no effect and are dropped)
+Effective(H) == {m \in H : IsMutation(m) /\ m.res \in {"ok", "fail"}}
 ReadOK(init, H, r) == Lin(init, Effective(H) \cup {r})
 BadReads(init, H) == {r \in H : ~IsMutation(r) /\ ~ReadOK(init, H, r)}
 AcctHistoryOK(init, H) == NoTornRead(H) /\ BadReads(init, H) = {}
